@@ -46,7 +46,13 @@ impl std::io::Seek for ChunkStream {
 
 pub fn make_oti(fec: &str, e: u16, b: u32, parity: u32) -> Option<Oti> {
     Some(match fec {
-        "nocode" => Oti::new_no_code(e, b as u16),
+        "nocode" => {
+            // the constructor takes a u16; the field itself is a public u32 (D39: blocks of more
+            // than 65536 symbols cannot be numbered by the 16-bit ESI)
+            let mut o = Oti::new_no_code(e, b.min(65535) as u16);
+            o.maximum_source_block_length = b;
+            o
+        }
         "rs28" => Oti::new_reed_solomon_rs28(e, b as u8, parity as u8).ok()?,
         "rs28us" => Oti::new_reed_solomon_rs28_under_specified(e, b as u16, parity as u16).ok()?,
         "raptorq" => Oti::new_raptorq(e, b as u16, parity as u16, 1, 1).ok()?,
